@@ -133,7 +133,8 @@ fn diff_value(key: &str, v: &str) -> &'static str {
 }
 
 /// variant bits: 1 = CRLF, 2 = BOM, 4 = comments and blank lines, 8 = repeat section headers,
-/// 16 = trailing whitespace, 32 = UTF-16LE with BOM (bytes only)
+/// 16 = trailing whitespace, 32 = UTF-16LE with BOM (bytes / path only), 64 = a comment line with a stray Latin-1 byte
+/// (not valid UTF-8; bytes / path only)
 pub fn render(lines: &[Line], variant: u32, salt: usize) -> Vec<u8> {
     let nl = if variant & 1 != 0 { "\r\n" } else { "\n" };
     let mut s = String::new();
@@ -202,6 +203,15 @@ pub fn render(lines: &[Line], variant: u32, salt: usize) -> Vec<u8> {
     let mut b = Vec::new();
     if variant & 2 != 0 {
         b.extend_from_slice(&[0xEF, 0xBB, 0xBF]);
+    }
+    if variant & 64 != 0 {
+        // after the header line: "// caf<E9>"
+        let cut = s.find(nl).map_or(s.len(), |p| p + nl.len());
+        b.extend_from_slice(s[..cut].as_bytes());
+        b.extend_from_slice(b"// caf\xE9");
+        b.extend_from_slice(nl.as_bytes());
+        b.extend_from_slice(s[cut..].as_bytes());
+        return b;
     }
     b.extend_from_slice(s.as_bytes());
     b
@@ -381,7 +391,7 @@ fn run_one(i: usize, sc: &Scenario, seed: u64, tmp: &str, out: &mut Out) {
         }
     }
     // one byte-level variant of the same content (same bad-line pool entries)
-    let variant = [1u32, 2, 4, 8, 16, 32, 1 | 2 | 16, 4 | 8][(salt / 3) % 8];
+    let variant = [1u32, 2, 4, 8, 16, 32, 1 | 2 | 16, 4 | 8, 64, 64 | 1 | 2][(salt / 3) % 10];
     let vb = render(&sc.lines, variant, salt);
     let d = guarded(|| Beatmap::from_bytes(&vb));
     out.decodes += 1;
@@ -392,6 +402,16 @@ fn run_one(i: usize, sc: &Scenario, seed: u64, tmp: &str, out: &mut Out) {
             "equal map".into(),
             format!("variant {variant}: {:?}", other.map(|r| r.map(|_| "different map"))),
         )),
+    }
+    // ... and the same bytes read from a file (encodings that are not UTF-8 exist only as bytes / files)
+    if i % 3 == (seed % 3) as usize || variant & (32 | 64) != 0 {
+        std::fs::write(tmp, &vb).unwrap();
+        let c = guarded(|| Beatmap::from_path(tmp));
+        out.decodes += 1;
+        match c {
+            Ok(Ok(m)) if m == a => {}
+            other => out.mism.push(mk("variant_from_path_differs", "equal map".into(), format!("variant {variant}: {:?}", other.map(|r| r.map(|_| "different map"))))),
+        }
     }
 }
 
